@@ -1,7 +1,7 @@
 """C08: guard state is restored on every exit path and nests as a conjunction."""
 import hypothesis
 from hypothesis import strategies as st
-from hypothesis.stateful import RuleBasedStateMachine, rule, invariant, precondition
+from hypothesis.stateful import RuleBasedStateMachine, rule, invariant, precondition, initialize
 
 from harness import core, env, r1cs
 
@@ -75,14 +75,32 @@ def make_machine(stats):
             return self.rt.PrivVal(v)
 
         # -- rules
+        @initialize(strict=st.booleans())
+        def warnings_policy(self, strict):
+            """the program may run with warnings turned into exceptions (python -W error, pytest's filterwarnings = error): a
+            warning the library issues while entering a region is then an exit path like any other"""
+            import warnings
+            self.hist.append(["warnings_as_errors", strict])
+            self._wctx = warnings.catch_warnings()
+            self._wctx.__enter__()
+            if strict:
+                warnings.simplefilter("error")
+
         @rule(v=st.integers(0, 1), form=st.sampled_from(["lc", "lc", "bool", "int1"]))
         def enter(self, v, form):
             self.hist.append(["enter", v, form])
             if form == "int1":
                 v = None
+            cond = self.mkcond(v if v is not None else 1, form)
+            before = self.triple()
+            try:
+                bak = self.rt.add_guard(cond)
+            except Warning as w:
+                if any(a is not b for a, b in zip(before, self.triple())):
+                    self.fail("add_guard raised %s (warnings are errors here) and left the guard state changed" % type(w).__name__)
+                return
             if v == 0 and 1 in self.active() and 0 not in self.active():
                 self.false_under_true = True
-            bak = self.rt.add_guard(self.mkcond(v if v is not None else 1, form))
             self.stack.append((v, bak))
 
         @precondition(lambda self: len(self.stack) > 0)
@@ -480,6 +498,8 @@ def make_machine(stats):
             self.check_inside([])
 
         def teardown(self):
+            if getattr(self, "_wctx", None) is not None:
+                self._wctx.__exit__(None, None, None)
             for g in self.gens:
                 g.close()
             for bv in self.leaked:
@@ -588,11 +608,21 @@ def replay(case):
                 m.break_inside_if(*h[1:])
             elif h[0] == "short_loop_inside_if":
                 m.short_loop_inside_if(*h[1:])
+            elif h[0] == "warnings_as_errors":
+                m.warnings_policy(h[1])
+            elif h[0] == "collect_garbage":
+                m.collect_garbage()
+            elif h[0] in ("gen_start", "gen_step", "call_args"):
+                getattr(m, h[0])(*h[1:])
+            else:
+                raise core.HarnessError("C08 replay: unknown step %r" % (h[0],))
             m.hist.pop()     # the rule appended it again
             m.hist.append(h)
             m.check_inside([])
     except core.Violation as v:
         return v.msg
+    finally:
+        m.teardown()
     return None
 
 
